@@ -240,6 +240,8 @@ def run(a, prop, seed, meta, known, fixed, tmp, t0):
         'repo': common.REPO,
         **meta['extra'],
     }
+    if 'real_sockets' in merged:    # cases also executed on real ZeroMQ sockets and compared with the same reference (measured)
+        coverage['traces_validated_against_impl'] = merged['real_sockets']['evaluations']
     ev = {'property_id': prop, 'tier': tier, 'seed': seed, 'level': meta['level'], 'coverage': coverage,
           'assumptions': meta['assumptions'], 'wall_s': round(time.time() - t0, 2), 'violations': len(violations)}
     if harness:
